@@ -577,35 +577,73 @@ def _writer(ctx: Ctx) -> None:
            f"writer emits {missing}, which the reader does not handle",
            construct="TSPLIB key sets")
     src = ast.unparse(ts.node)
-    ok_fmt = "_EWF_UPPER_ROW if self.is_symmetric else _EWF_FULL_MATRIX" \
-        in src
-    ok_ty = "_TYPE_SYMMETRIC_TSP if self.is_symmetric else " \
-            "_TYPE_ASYMMETRIC_TSP" in src
-    ctx.ob("D18.3", ts, ts.node, ok_fmt and ok_ty,
+    # ---- per path (symmetric / asymmetric): the TYPE and EDGE_WEIGHT_FORMAT
+    # header values and the rows that are emitted
+    from sa.pathinline import Path, flatten_fstring, paths
+    coll = ts.params[1]
+    selfn = ts.params[0]
+    sym_src = f"{selfn}.is_symmetric"
+    ok_ty = ok_fmt = True
+    ok_rows = ok_full = None
+    n_paths = {True: 0, False: 0}
+    for q in paths(func_body(ts)):
+        if q.ended == "raise":
+            continue
+        pol = set()
+        for tst, truth in q.guards:
+            t_, tr_ = tst, truth
+            while isinstance(t_, ast.UnaryOp) and isinstance(
+                    t_.op, ast.Not):
+                t_, tr_ = t_.operand, not tr_
+            if ast.unparse(t_) == sym_src:
+                pol.add(tr_)
+        if len(pol) != 1:
+            continue          # contradictory (infeasible) or unconstrained
+        sym = next(iter(pol))
+        n_paths[sym] += 1
+        for e in q.events:
+            if e.kind == "expr" and isinstance(
+                    e.value, ast.Call) and ast.unparse(
+                    e.value.func) == coll and len(e.value.args) == 1:
+                toks = flatten_fstring(e.value.args[0]) or []
+                key = repo.const(ts.module, toks[0][1]) if toks and \
+                    toks[0][0] == "val" else None
+                vals = [repo.const(ts.module, v) for k_, v in toks[1:]
+                        if k_ == "val"]
+                if key == "TYPE":
+                    ok_ty = ok_ty and vals == [
+                        "TSP" if sym else "ATSP"]
+                elif key == "EDGE_WEIGHT_FORMAT":
+                    ok_fmt = ok_fmt and vals == [
+                        "UPPER_ROW" if sym else "FULL_MATRIX"]
+            elif e.kind == "loop" and isinstance(e.node, ast.For) and any(
+                    isinstance(c_, ast.Call) and ast.unparse(
+                        c_.func) == coll for c_ in ast.walk(e.node)) and \
+                    ast.unparse(e.value).startswith("range("):
+                lp = e.node
+                rng = ast.unparse(e.value).replace(" ", "")
+                iv_ = lp.target.id if isinstance(lp.target, ast.Name) \
+                    else "?"
+                subs = set()
+                for w in paths(lp.body, Path(env=dict(e.extra))):
+                    for ev_ in w.events:
+                        if ev_.kind == "expr":
+                            subs |= {ast.unparse(x).replace(" ", "")
+                                     for x in ast.walk(ev_.value)
+                                     if isinstance(x, ast.Subscript)}
+                full_rng = rng == f"range({selfn}.n_cities)"
+                if sym:
+                    good = full_rng and f"{selfn}[{iv_}][{iv_}+1:]" in subs
+                    ok_rows = good if ok_rows is None else (ok_rows and good)
+                else:
+                    good = full_rng and f"{selfn}[{iv_}]" in subs and not \
+                        any(":" in x for x in subs)
+                    ok_full = good if ok_full is None else (ok_full and good)
+    ok_choice = ok_fmt and ok_ty and n_paths[True] >= 1 and \
+        n_paths[False] >= 1
+    ctx.ob("D18.3", ts, ts.node, ok_choice,
            "symmetric instances are written as TSP / UPPER_ROW, others as "
            "ATSP / FULL_MATRIX", construct="writer format choice")
-    # row emission under is_symmetric
-    sym_rows = full_rows = None
-    for n in ast.walk(ts.node):
-        if isinstance(n, ast.If) and ast.unparse(n.test) == \
-                "self.is_symmetric":
-            for br, name in ((n.body, "sym"), (n.orelse, "full")):
-                for lp in br:
-                    if isinstance(lp, ast.For):
-                        rng = ast.unparse(lp.iter).replace(" ", "")
-                        emitted_rows = [
-                            ast.unparse(x) for x in ast.walk(lp)
-                            if isinstance(x, ast.Subscript)]
-                        if name == "sym":
-                            sym_rows = (rng, emitted_rows)
-                        else:
-                            full_rows = (rng, emitted_rows)
-    iv = "i"
-    ok_rows = sym_rows is not None and sym_rows[0] == \
-        "range(self.n_cities)" and any(
-        r.replace(" ", "") == f"self[{iv}][{iv}+1:]" for r in sym_rows[1])
-    ok_full = full_rows is not None and full_rows[0] == \
-        "range(self.n_cities)" and f"self[{iv}]" in full_rows[1]
     ctx.ob("D18.3", ts, ts.node, bool(ok_rows and ok_full),
            "UPPER_ROW output is row i = self[i][i+1:] for i = 0..n-1: the "
            "order (row j, columns j+1..n-1) the UPPER_ROW walker consumes; "
@@ -1297,7 +1335,7 @@ def _header(ctx: Ctx) -> None:
             k = repo.const(mod, s.test.comparators[0])
             if not isinstance(k, str):
                 continue
-            for b in s.body:
+            for b in ast.walk(ast.Module(body=s.body, type_ignores=[])):
                 if isinstance(b, (ast.Assign, ast.AnnAssign)) and \
                         b.value is not None:
                     tg = b.targets[0] if isinstance(b, ast.Assign) \
